@@ -27,7 +27,7 @@ REQUIRED = ["Sqfs.C08.bw_no_error", "Sqfs.C08.bw_readback", "Sqfs.C08.bw_readbac
             "Sqfs.C08.bw_share_sound", "Sqfs.C08.bw_share_complete",
             "Sqfs.C08.bw_refines_spec", "Sqfs.C08.bw_checksum_irrelevant",
             "Sqfs.C08.frag_no_error", "Sqfs.C08.frag_sound", "Sqfs.C08.frag_share", "Sqfs.C08.frag_lookup_unique",
-            "Sqfs.C08.stream_wfS", "Sqfs.C08.stream_readback", "Sqfs.C08.stream_frag_link", "Sqfs.C08.stream_frag_sound"]
+            "Sqfs.C08.stream_wfS", "Sqfs.C08.stream_readback", "Sqfs.C08.stream_frag_link", "Sqfs.C08.stream_frag_sound", "Sqfs.C08.stream_no_error"]
 
 F_DONT_COMPRESS, F_DONT_HASH, F_DONT_FRAGMENT, F_DONT_DEDUP, F_IGNORE_SPARSE = 1, 2, 4, 8, 0x10
 F_SPARSE, F_FIRST, F_LAST, F_IS_FRAGMENT, F_FRAGBLK, F_COMPRESSED = 0x400, 0x800, 0x1000, 0x2000, 0x4000, 0x8000
@@ -1220,6 +1220,8 @@ def run(ctx):
     check_bw(ctx, harness, n_bw(ctx), stats)
     check_bp(ctx, harness, n_bp(ctx), stats, serial_harness=None if ctx.quick() else build_harness(ctx, serial=True))
     check_sensitivity(ctx, harness, stats)
+    # fingerprint of the generator state before the tools phase: `replay` of a tools violation re-creates it with gen_only()
+    stats["rng_before_tools"] = int(vlib.sha(repr(ctx.rng.getstate()))[:8], 16)
     check_tools(ctx, stats, 4 if ctx.quick() else 40)
     # a part of the check that evaluated nothing is a failure of the check, never a pass
     if not ctx.violations:
@@ -1272,8 +1274,8 @@ def run(ctx):
             "block-writer theorems assume the protocol `wf` / `wfS` of the call stream and blocks < 2^24 bytes; both are proved of the "
             "composed model's call stream for every schedule (stream_wfS) and evaluated (Lean predicates) on every logged call stream "
             "of the real block processor",
-            "the composed model's error exits other than schedule refusal are not proved unreachable; on every run the model accepts the "
-            "real schedule without error",
+            "the composed model fails only by refusing a schedule (stream_no_error); that the real schedule is an admitted one is "
+            "checked on every run (the model accepts the real event order)",
             "fragment theorems assume non-empty fragments (proved of the composed model: the front end only submits tail ends of "
             "size % block_size > 0 bytes)",
             "the 4 GiB-offset scripts compare the real writer (virtual base) with the model run at offset 0, shifted: translation "
